@@ -201,36 +201,50 @@ inductive Op
 
 def isNode (w : World) (i : Nat) : Bool := decide (i < w.n)
 
+/-- node-level effect of `Cmd::Replicate{holder, keys}` arriving at node `i` (`add_keys_to_replication_fetcher`):
+unless the holder is heard nothing happens; otherwise `add_keys` against the whole local index -/
+def nodeRep (w : World) (i : Nat) (nd : NodeSt) (holder : Nat) (keys : List (Nat × Nat)) (choice : List Entry) :
+    NodeSt × Fetcher.Out :=
+  if !(replicateArmPassesOn && heard w i holder) then (nd, { illegal := !choice.isEmpty })
+  else
+    let (f, o) := Fetcher.addKeys (w.kdist i) nd.fetcher holder keys (indexOf nd.store) choice
+    ({ nd with fetcher := f }, if replicateEmitsFetchEvent then o else { o with ret := [] })
+
+/-- `handle_query(GetReplicatedRecord{key})` at a holder -/
+def serve (nd : NodeSt) (key : Nat) : Option Content := nd.store.get key
+
+/-- node-level effect of a fetched record `(key, c)` arriving at the requester `i`: `store_replicated_in_record`,
+then the `PutLocalRecord` handler for what it decided to write -/
+def nodeRsp (w : World) (i : Nat) (nd : NodeSt) (key : Nat) (c : Content) (choice : List Entry) :
+    NodeSt × Fetcher.Out × List (Nat × Content) :=
+  match replWrites nd.store key c with
+  | [] => (nd, { illegal := !choice.isEmpty }, [])
+  | (k, c') :: _ =>
+    let (nd, o) := putLocal w i nd k c' choice
+    (nd, o, [(k, c')])
+
 /-- `Cmd::Replicate{holder, keys}` arrives at node `i` -/
 def deliverRep (w : World) (s : Sys) (i holder : Nat) (keys : List (Nat × Nat)) (choice : List Entry) : Sys × Out :=
-  if !(replicateArmPassesOn && heard w i holder) then (s, { illegal := !choice.isEmpty })
-  else
-    let nd := s.node i
-    let (f, o) := Fetcher.addKeys (w.kdist i) nd.fetcher holder keys (indexOf nd.store) choice
-    let s := s.setNode i { nd with fetcher := f }
-    let ret := if replicateEmitsFetchEvent then o.ret else []
-    let (s, ids) := s.send (fetchMsgs i ret)
-    (s, { sched := o.ret, failed := o.failed, illegal := o.illegal, newMsgs := ids })
+  let (nd, o) := nodeRep w i (s.node i) holder keys choice
+  let s := s.setNode i nd
+  let (s, ids) := s.send (fetchMsgs i o.ret)
+  (s, { sched := o.ret, failed := o.failed, illegal := o.illegal, newMsgs := ids })
 
 /-- `GetReplicatedRecord{key}` arrives at holder `h`, asked by `src` -/
 def deliverGet (s : Sys) (src h key : Nat) : Sys × Out :=
-  let c := (s.node h).store.get key
+  let c := serve (s.node h) key
   let (s, ids) := s.send [.rsp h src key c]
   (s, { rsp := some c, newMsgs := ids })
 
-/-- the holder's reply arrives at the requester `i` -/
+/-- the holder's reply arrives at the requester `i` (no record: the fallback network get finds nothing) -/
 def deliverRsp (w : World) (s : Sys) (i key : Nat) (content : Option Content) (choice : List Entry) : Sys × Out :=
   match content with
   | none => (s, { netget := some key, illegal := !choice.isEmpty })
   | some c =>
-    let nd := s.node i
-    match replWrites nd.store key c with
-    | [] => (s, { illegal := !choice.isEmpty })
-    | (k, c') :: _ =>
-      let (nd, o) := putLocal w i nd k c' choice
-      let s := s.setNode i nd
-      let (s, ids) := s.send (fetchMsgs i o.ret)
-      (s, { sched := o.ret, failed := o.failed, illegal := o.illegal, writes := [(k, c')], newMsgs := ids })
+    let (nd, o, ws) := nodeRsp w i (s.node i) key c choice
+    let s := s.setNode i nd
+    let (s, ids) := s.send (fetchMsgs i o.ret)
+    (s, { sched := o.ret, failed := o.failed, illegal := o.illegal, writes := ws, newMsgs := ids })
 
 def step (w : World) (s : Sys) : Op → Sys × Out
   | .seed i k c choice =>
